@@ -333,3 +333,33 @@ Proof.
   - destruct z; cbn; try discriminate. intros E. inversion E as [E']. exact (Unsigned.to_uint_nonnil _ E').
   - destruct z; cbn; try discriminate. intros E. inversion E as [E']. exact (Unsigned.to_uint_nonnil _ E').
 Qed.
+
+(* ---- parenthesised texts are top-level safe ------------------------------------------------ *)
+Lemma top_shift : forall a d k b, bal d a = true -> top (d + S k) (a ++ b) = top (S k) b.
+Proof.
+  induction a as [|c a IH]; intros d k b H.
+  - cbn in H. apply Nat.eqb_eq in H. subst. reflexivity.
+  - cbn in H. change (String c a ++ b) with (String c (a ++ b)). cbn [top].
+    destruct (Nat.eqb d 0 && Ascii.eqb c ")") eqn:E; [discriminate|].
+    replace (Nat.eqb (d + S k) 0) with false by (symmetry; apply Nat.eqb_neq; lia). cbn [andb].
+    rewrite (next_shift d (S k) c E). apply IH. exact H.
+Qed.
+Lemma top_paren a : bal 0 a = true -> top 0 ("(" ++ a ++ ")") = true.
+Proof. intros H. pose proof (top_shift a 0 0 ")" H) as E. cbn in *. rewrite E. reflexivity. Qed.
+
+Lemma top_join sep : top 0 sep = true -> forall l, forallb (top 0) l = true -> top 0 (join sep l) = true.
+Proof.
+  intros Hs. induction l as [|a l IH]; intros H; [reflexivity|].
+  cbn in H. apply andb_prop in H as [H1 H2]. destruct l as [|b l]; [exact H1|].
+  change (join sep (a :: b :: l)) with (a ++ sep ++ join sep (b :: l)).
+  apply top_app; [exact H1|]. apply top_app; [exact Hs|]. apply IH. exact H2.
+Qed.
+
+(* ---- non-integer numerals (raw_ok) ---------------------------------------------------------- *)
+Lemma num_start_not_prefix (k : ascii) W s x : num_start_char k = false ->
+  match s with String c _ => num_start_char c | EmptyString => false end = true ->
+  prefix (String k W) (s ++ x) = false.
+Proof.
+  intros Hk Hs. destruct s as [|c s]; [discriminate|]. cbn [append]. rewrite prefix_cons.
+  destruct (Ascii.eqb k c) eqn:E; [|reflexivity]. apply Ascii.eqb_eq in E. subst. congruence.
+Qed.
